@@ -161,10 +161,11 @@ package dmap
 //@   modifies nothing
 
 //@ func (dm *DMap) loadFragment(part *partitions.Partition) (*fragment, error)
-//@   props C09 C05
+//@   props C09 C05 C19
 //@   trusted
 //@   ensures #usable: result.1 == nil ==> result.0 != nil && result.0.storage != nil
 //@   ensures #err_kind: result.1 == nil || result.1 == errFragmentNotFound
+//@   ensures #present_iff [C19]: part != nil ==> (result.1 == nil) == part.frags[dm.fragmentName]
 //@   modifies nothing
 
 //@ pure func share(limit int, owned uint64) int = ite(limit / owned >= 1, limit / owned, 1)
@@ -563,3 +564,52 @@ package dmap
 //@   ensures #keeps_expiry [C09] internal: result.1 == nil && ttl != 0 && 0 <= ttl && ttl < 4611686018427 ==> e.putConfig.HasPX && !e.putConfig.HasEX && !e.putConfig.OnlyUpdateTTL &&
 //@                ttl * 1000000 - now() <= e.putConfig.PX && e.putConfig.PX <= ttl * 1000000 - old(now())
 //@   ensures #no_expiry_stays_none [C09] internal: result.1 == nil && ttl == 0 ==> !e.putConfig.HasPX && !e.putConfig.HasEX && !e.putConfig.HasEXAT && !e.putConfig.HasPXAT
+
+// ---------------------------------------------------------------------------------------------------
+// C19: Destroy. The fragments a partition holds (a sync.Map keyed by fragment name) are seen as a ghost set of
+// names. Destroying a DMap on this member removes the fragment of that DMap from every primary partition and,
+// with replicas, from every backup partition - and touches no fragment of any other name.
+//@ import partitions "github.com/olric-data/olric/internal/cluster/partitions"
+//@ ghost field partitions.Partition.frags set[string]
+
+//@ func wipeOutFragment(part *partitions.Partition, name string, f *fragment) error
+//@   props C19
+//@   trusted
+//@   requires #args: part != nil && f != nil
+//@   ensures #removed: result == nil ==> part.frags == setRemove(old(part.frags), name)
+//@   ensures #failed: result != nil ==> part.frags == old(part.frags)
+//@   modifies part.frags
+
+//@ func (dm *DMap) destroyFragmentOnPartition(part *partitions.Partition) error
+//@   props C19
+//@   flag termination
+//@   requires #args: dm != nil && part != nil
+//@   ensures #gone [C19]: result == nil ==> !part.frags[dm.fragmentName]
+//@   ensures #only_this_dmap [C19]: forall n string :: n != dm.fragmentName ==> part.frags[n] == old(part.frags)[n]
+//@   modifies part.frags
+
+//@ func (s *Service) getDMap(name string) (*DMap, error)
+//@   props C19
+//@   flag termination
+//@   requires #svc: s != nil
+//@   ensures #found: (result.1 == nil) == (name in s.dmaps) && (result.1 == nil ==> result.0 == s.dmaps[name])
+//@   ensures #err_kind: result.1 == nil || result.1 == ErrDMapNotFound
+//@   modifies nothing
+
+//@ func (s *Service) destroyLocalDMap(name string) error
+//@   props C19
+//@   flag termination
+//@   flag wired 2
+//@   requires #parts: s.parts()
+//@   requires #known: name in s.dmaps ==> s.dmaps[name] != nil && s.dmaps[name].s == s
+//@   ensures #every_partition [C19]: result == nil && old(name in s.dmaps) ==> forall p uint64 {s.primary.m[p]} :: p < s.config.PartitionCount ==>
+//@                !s.primary.m[p].frags[old(s.dmaps[name]).fragmentName] && (s.config.ReplicaCount > 1 ==> !s.backup.m[p].frags[old(s.dmaps[name]).fragmentName])
+//@   ensures #forgotten [C19]: result == nil ==> !(name in s.dmaps)
+//@   ensures #other_dmaps_untouched [C19]: old(name in s.dmaps) ==> forall p uint64, n string {s.primary.m[p].frags[n]} {s.backup.m[p].frags[n]} :: p < s.config.PartitionCount && n != old(s.dmaps[name]).fragmentName ==>
+//@                s.primary.m[p].frags[n] == old(s.primary.m[p].frags)[n] && s.backup.m[p].frags[n] == old(s.backup.m[p].frags)[n]
+//@   loop 0 invariant #swept: partID <= s.config.PartitionCount && s.parts() && (name in s.dmaps) == old(name in s.dmaps) && (name in s.dmaps ==> s.dmaps[name] == old(s.dmaps[name]) && s.dmaps[name] != nil && s.dmaps[name].s == s) &&
+//@                (old(name in s.dmaps) ==> forall p uint64 {s.primary.m[p]} :: p < partID ==>
+//@                     !s.primary.m[p].frags[old(s.dmaps[name]).fragmentName] && (s.config.ReplicaCount > 1 ==> !s.backup.m[p].frags[old(s.dmaps[name]).fragmentName]))
+//@   loop 0 invariant #others: old(name in s.dmaps) ==> forall p uint64, n string {s.primary.m[p].frags[n]} {s.backup.m[p].frags[n]} :: p < s.config.PartitionCount && n != old(s.dmaps[name]).fragmentName ==>
+//@                s.primary.m[p].frags[n] == old(s.primary.m[p].frags)[n] && s.backup.m[p].frags[n] == old(s.backup.m[p].frags)[n]
+//@   loop 0 decreases s.config.PartitionCount - partID
